@@ -90,9 +90,11 @@ def jobs(tier, seed=0):
     cap = 50000 if quick else 400000
     LIM = 2
 
+    t_end = time.time() + (150 if quick else 1200)      # no single exploration may run away (recorded as not exhaustive)
+
     def A(name, mk, alpha, limit=LIM, **kw):
         J.append(Job("A", _checked(lambda: mk(name=name, alphabet=alpha(), limit=limit, **kw), seed),
-                     max_states=cap))
+                     max_states=cap, deadline=t_end))
 
     def B(name, mk, cycles=None, **kw):
         J.append(Job("B", _checked(lambda: mk(name=name, **kw), seed), cycles=cycles or (3000 if quick else 30000),
@@ -114,7 +116,9 @@ def jobs(tier, seed=0):
             # decoder alone
             for m in (1, 2, 3):
                 for mapname, decs, addrs in MAPS[m]:
-                    if quick and full and (m == 3 or mapname != MAPS[m][0][0]):
+                    if quick and (m == 3 or full) and mapname != MAPS[m][0][0]:
+                        continue
+                    if quick and full and m == 3:
                         continue
                     A("%sDecoder 1->%d %s %s a2" % (T, m, mapname, d),
                       lambda decs=decs, full=full, **k: make_dec(decs, full=full, **k),
@@ -136,8 +140,10 @@ def jobs(tier, seed=0):
                             lvl = 2 if (kind == "Shared" and not full) or not quick else 1
                         else:
                             lvl = 1
-                        if quick and full and kind == "Crossbar" and d == "w":
-                            continue
+                        if quick and full and kind == "Crossbar":
+                            if d == "w":
+                                continue
+                            lvl = 1
                         name = "%s%s %dx%d %s %s a%d" % (T, kind, n, m, mapname, d, lvl)
                         if big:
                             # the level-1 product is still large: protocol-shaped sample of it
@@ -151,19 +157,17 @@ def jobs(tier, seed=0):
                                   small_alphabet(n, m, addrs=addrs, direction=d, full=full, level=lvl))
         # both directions active in the same cycle
         for kind, mk in (("Shared", make_shared), ("Crossbar", make_xbar)):
-            if kind == "Crossbar" and quick and full:
+            if quick and (full or kind == "Crossbar"):
                 continue
             _, decs, addrs = MAPS[2][0]
-            cnt = (600 if kind == "Shared" else 150) if quick else (6000 if kind == "Shared" else 1500)
+            cnt = 300 if quick else (6000 if kind == "Shared" else 1500)
             A("%s%s 2x2 cover joint (single-direction core + %d sampled write x read letters)" % (T, kind, cnt),
               lambda decs=decs, full=full, mk=mk, **k: mk(2, decs, full=full, **k),
               lambda full=full, addrs=addrs, cnt=cnt: _joint_alphabet(2, 2, addrs, full, seed, cnt),
               limit=1 if kind == "Crossbar" else LIM)
-    # overlapping decoders, crossbar given a timeout argument (accepted and ignored by the code), limit 3
-    A("AXILiteShared 2x2 overlap w a1", lambda **k: make_shared(2, OVERLAP, **k),
-      lambda: small_alphabet(2, 2, direction="w", level=1))
-    A("AXILiteCrossbar 2x2 cover r a2 timeout_cycles=4", lambda **k: make_xbar(2, MAPS[2][0][1], timeout_arg=4, **k),
-      lambda: small_alphabet(2, 2, direction="r"))
+    # crossbar given a timeout argument (accepted and ignored by the code), limit 3
+    A("AXILiteCrossbar 2x1 all r a2 timeout_cycles=4", lambda **k: make_xbar(2, MAPS[1][0][1], timeout_arg=4, **k),
+      lambda: small_alphabet(2, 1, direction="r"))
     A("AXILiteShared 2x2 cover r a2 limit=3", lambda **k: make_shared(2, MAPS[2][0][1], **k),
       lambda: small_alphabet(2, 2, direction="r"), limit=3)
 
@@ -199,6 +203,14 @@ def jobs(tier, seed=0):
       cycles=6000 if quick else 60000)
     B("AXIShared 3x3 cover walk", lambda **k: make_shared(3, MAPS[3][0][1], full=True, domain=False, env=WalkEnv,
                                                          alphabet=_joint_alphabet(3, 3, MAPS[3][0][2], True, seed, 4000), **k),
+      cycles=6000 if quick else 60000)
+    # overlapping decoders (outside every theorem's hypothesis; the per-slave limiter does not bound the counters
+    # there, so random walks instead of exhaustive exploration): the model must still agree
+    B("AXILiteShared 2x2 overlap walk", lambda **k: make_shared(2, OVERLAP, domain=False, monitored=False, env=WalkEnv,
+                                                               alphabet=_joint_alphabet(2, 2, (0, 2), False, seed, 2000), **k),
+      cycles=6000 if quick else 60000)
+    B("AXICrossbar 2x2 overlap walk", lambda **k: make_xbar(2, OVERLAP, full=True, domain=False, monitored=False, env=WalkEnv,
+                                                           alphabet=_joint_alphabet(2, 2, (0, 2), True, seed, 2000), **k),
       cycles=6000 if quick else 60000)
     return J
 
